@@ -1,4 +1,5 @@
 import Liquid.Std
+import Proofs.MapPermStd
 /-!
 # C02 — rendering is deterministic across runs, re-parses, engines and entry points
 
@@ -100,3 +101,77 @@ example : sortedEntries [([98], .nil), ([97], .bool true)] = sortedEntries [([97
     intro a b ha hb h
     simp only [List.mem_cons, List.mem_nil_iff, or_false] at ha hb
     rcases ha with rfl | rfl <;> rcases hb with rfl | rfl <;> simp_all)
+
+
+/-! ## The whole render does not depend on the order of map entries
+
+`MP a b` (`Proofs/MapPerm.lean`, defined inductively on `GoVal`): `b` is `a` with the entry lists of maps
+permuted, at any depth — for maps whose keys are booleans, numbers or strings, pairwise distinct as Go
+map keys (`MapOrder.KeysOK`: what the keys of one Go map of these kinds always are). The model's `run`
+gets every map as a *list* of entries, in the order of the line protocol, and sorts it wherever the code
+calls `values.SortedMapKeys` (`Liquid/MapOrder.lean`); Go's runtime hands the entries out in a random
+order. The theorems say that this order cannot reach the result. -/
+
+/-- **C02, whole template, parametric in the value layer.** For every comparison/filter layer `P` and
+output layer `O` that do not see the order of map entries (`PrimsRespectM`, `OutRespectM`: related
+operands compare alike, related filter inputs give related results, related values print alike), every
+configuration, file system, include depth, template source and start line: rendering against two
+environments whose bindings differ in the order of the entries of maps, at any depth (`MP`), gives the
+same result — the same output bytes or the same error. Proved by the mutual induction over the compiled
+tree on the two runs in lock step (`mp_renderNode`, `Proofs/MapPermRender.lean`): variable, property and
+index lookup find the same entry (`mapFind_mp`: keys are distinct), `for`/`tablerow` visit the entries in
+the order of `SortedMapKeys` (`loopItems_mp_cases`, by `sortedEntries_perm`), assign/capture/loop
+variables stay related, includes see related variables. -/
+theorem run_map_order_independent (P : Prims) (O : OutPrims) (hP : PrimsRespectM false P) (hO : OutRespectM false O)
+    (cfg : Cfg) (fs : FS) (fuel : Nat) (src : Bytes) (line : Nat) (env env' : Env)
+    (he : ∀ x, MP (env.get x) (env'.get x)) :
+    run P O cfg fs fuel src line env = run P O cfg fs fuel src line env' :=
+  (run_mp P O cfg fs fuel hP hO src line he).eq
+
+/-- The same up to the boundary of the model (`RunAgree true`: equal, or one of the two runs is
+`unmodelled`): the layers need to respect `MP` only up to `unmodelled` results. -/
+theorem run_map_order_independent_upto_unmodelled (P : Prims) (O : OutPrims) (hP : PrimsRespectM true P)
+    (hO : OutRespectM true O) (cfg : Cfg) (fs : FS) (fuel : Nat) (src : Bytes) (line : Nat) (env env' : Env)
+    (he : ∀ x, MP (env.get x) (env'.get x)) :
+    RunAgree true (run P O cfg fs fuel src line env) (run P O cfg fs fuel src line env') :=
+  run_mp P O cfg fs fuel hP hO src line he
+
+/-- a map binding with its entries permuted is a related binding -/
+theorem binding_related_of_perm (kt vt : Ty) {kvs kvs' : List (GoVal × GoVal)} (hv : vt ≠ .priv)
+    (hk : MapOrder.KeysOK kvs) (hn : NoPriv kvs) (hp : kvs.Perm kvs') : MP (.map kt vt kvs) (.map kt vt kvs') :=
+  MP.map kt vt hv hk hn (MPV.refl _) hp
+
+/-- … at any depth: an array of such maps -/
+theorem binding_related_nested (t : Ty) {x y : GoVal} (h : MP x y) (xs : List GoVal) : MP (.slice t (x :: xs)) (.slice t (y :: xs)) :=
+  MP.slice t (.cons h (MPL.refl xs))
+
+/-! Non-vacuity: the map with the keys `1`, `1.0`, `int64(1)`, `"1"`, `true` in two orders, bound to `m`;
+layers that satisfy the hypotheses. -/
+
+example : MP (.map .any .any MapOrder.exA) (.map .any .any MapOrder.exB) :=
+  binding_related_of_perm .any .any (by simp) MapOrder.exA_keysOK
+    (by intro kv h; simp only [MapOrder.exA, List.mem_cons, List.mem_nil_iff, or_false] at h
+        rcases h with rfl | rfl | rfl | rfl | rfl <;> rfl)
+    MapOrder.exB_perm_exA.symm
+
+example : ∀ y, MP (Env.get [([109], .map .any .any MapOrder.exA)] y) (Env.get [([109], .map .any .any MapOrder.exB)] y) := by
+  intro y
+  by_cases h : y = [109]
+  · subst h
+    exact binding_related_of_perm .any .any (by simp) MapOrder.exA_keysOK
+      (by intro kv h; simp only [MapOrder.exA, List.mem_cons, List.mem_nil_iff, or_false] at h
+          rcases h with rfl | rfl | rfl | rfl | rfl <;> rfl)
+      MapOrder.exB_perm_exA.symm
+  · have : ([109] == y) = false := by simp [Ne.symm h]
+    simp [Env.get, List.find?, this, MP.refl]
+
+example : PrimsRespectM false
+    { equal := fun _ _ => .ok true, less := fun _ _ => .ok false, contains := fun _ _ => .ok false,
+      equalFn := fun _ _ => .ok true, applyFilter := fun _ r _ => .ok r, hasFilter := fun _ => true } :=
+  { equal := fun _ _ _ _ _ _ => rfl, less := fun _ _ _ _ _ _ => rfl, contains := fun _ _ _ _ _ _ => rfl,
+    equalFn := fun _ _ _ _ _ _ => rfl, applyFilter := fun _ _ _ _ _ hr _ => hr.2.2 }
+
+example : OutRespectM false { chunks := fun _ => .ok [] } := { chunks := fun _ _ _ => rfl }
+
+/-- the standard output layer satisfies its hypothesis (up to `unmodelled`) -/
+example : OutRespectM true stdOut := stdOut_respectsM
